@@ -150,6 +150,20 @@ pub fn check(sc: &Scenario, ex: &mut Exec) -> (Verdict, Option<String>) {
         }
         Err(_) => return (Verdict::Skip("rejected".into()), None),
     };
+    // ---- (c) static column lineage of the returned relation: no output column may carry a value
+    // dependency on a protected table column that crosses neither a Gaussian-noise expression nor
+    // the key-release map (decided on the IR, so also when the engine cannot run the query)
+    let leaks = crate::ir::unnoised_outputs(&compiled.dp, &|path: &str| sc.is_protected(path));
+    if let Some((col, w)) = leaks.first() {
+        violations.push(Violation {
+            property: "C02".into(),
+            invariant: "static_lineage".into(),
+            class: "unclassified".into(),
+            detail: format!("output column {} of the returned relation depends on protected rows through a path with no noise-adding aggregation: {}", col, w),
+            witness: json!({"column": col, "lineage": w, "leaking_columns": leaks.len()}),
+        });
+        return (Verdict::Violations(violations), Some(coarse_shape(sc, "static_leak")));
+    }
     let own = owners::owners(sc);
     let units = c01::pick_units(sc, &own, 3);
     let dp_sql = pipeline::render(&compiled.dp);
@@ -199,6 +213,13 @@ pub fn check(sc: &Scenario, ex: &mut Exec) -> (Verdict, Option<String>) {
     let mut on_d: Vec<ResultSet> = vec![];
     for (name, p) in &plans {
         match ex.query(&mut eng, &format!("dp_D_{}", name), &dp_sql, p) {
+            Err(e) if on_d.is_empty() => {
+                // the engine rejects the rendered query (e.g. two CTEs with one name): the label
+                // and lineage invariants above were decided on the IR, the dynamic taint cannot be
+                ex.stats.probe("dynamic_taint_skipped_engine_gap");
+                ex.log.push(format!("engine gap {}", short(&e)));
+                return (Verdict::Ok, Some(coarse_shape(sc, "static_only")));
+            }
             Ok((rs, _)) => {
                 if std::env::var("VERIF_DEBUG").is_ok() {
                     eprintln!("plan {} -> {:?}", name, rs.rows);
